@@ -443,6 +443,23 @@ theorem applySchemaDefs_at {P : Pos → Prop} (st : LState) {l : List SchemaDef}
         · simp at he
         · simp at he
 
+/-- the root-kind check blames the position of the root type's definition -/
+theorem checkRootKind_at {P : Pos → Prop} {st : LState} (h : StateIn P st) (op : Bytes) (root : Option Name) :
+    ChkAt P (checkRootKind st op root) := by
+  unfold checkRootKind
+  split
+  · exact chkAt_pass
+  · rename_i n
+    split
+    · exact chkAt_pass
+    · rename_i d hd
+      exact chkAt_ite (chkAt_failAt (h.1 (n, d) (mem_of_lookup hd)).1 _) chkAt_pass
+
+theorem checkRootKinds_at {P : Pos → Prop} {st : LState} (h : StateIn P st) (r : Roots) :
+    ChkAt P (checkRootKinds st r) := by
+  unfold checkRootKinds
+  exact chkAt_andThen (checkRootKind_at h _ _) (chkAt_andThen (checkRootKind_at h _ _) (checkRootKind_at h _ _))
+
 /-- **truthful load errors**: whatever error `load` returns is located at the position of a node of
     the document (for every `P` that contains the positions of the document's nodes) -/
 theorem load_error_loc {P : Pos → Prop} {sd : SchemaDoc} (h : DocIn P sd) {e : LoadError} (he : load sd = .err e) :
@@ -485,7 +502,13 @@ theorem load_error_loc {P : Pos → Prop} {sd : SchemaDoc} (h : DocIn P sd) {e :
               subst he
               exact validateDirectiveDefinitions_at hb e' he'
             · simp at he
-            · simp at he
+            · split at he
+              · rename_i e' he'
+                simp only [LoadResult.err.injEq] at he
+                subst he
+                exact checkRootKinds_at hb _ e' he'
+              · simp at he
+              · simp at he
 
 end Gql.Load
 
